@@ -18,6 +18,7 @@
 //	       DRAIN             wait until no replica is rate limited; collect the burst
 //	       QUIESCE           wait until every running member replica is quiesced (verif hook)
 //	       AWAKE             wait until every one of them has left quiesce since
+//	       LAG h ms          ms without any request, then: is the replica on host h behind the others (applied index)?
 //	       FAIR              the fault-free period begins: heal, restart stopped members, a probe proposal
 //	       (the end of every script is an implicit FAIR followed by the convergence check)
 //	obs:   <id> <i>:<OP> [q=<0|1>] <class>   (classes: see ops.go)   and   <id> end <class> same=<0|1> clean=<0|1>
